@@ -245,6 +245,16 @@ def pred(ctx, name, inp, klass=None):
 
 
 # ------------------------------------------------------------------ generators
+def budget(ctx, key, n):
+    """The runner keeps the first 500 failures of a shard.  Inputs in the region of a LISTED finding fail by the
+    hundred; to keep new failures visible only the first n such inputs per shard are evaluated, the others are counted."""
+    b = ctx.__dict__.setdefault('_budget', {})
+    b[key] = b.get(key, 0) + 1
+    if b[key] == n + 1:
+        ctx.notes.append('known-finding region %s: only the first %d inputs of each shard are evaluated' % (key, n))
+    return b[key] <= n
+
+
 def gen_e(rng, hot):
     r = rng.random()
     if r < 0.25:
@@ -420,6 +430,8 @@ def generate(ctx, shard=0, nshards=1):
         tie('illuminated_fraction', [sd, ed, sed], lambda: illuminated_fraction(sd, ed, sed), 'phase')
         if feasible(sd, ed, sed):
             dg = degeneracy(sd, ed, sed)
+            if dg <= 1e-14 and not budget(ctx, 'flat_triangle', 150):
+                continue    # region of a listed finding: evaluated on the first inputs of the shard only (see budget)
             pred(ctx, 'phase_illuminated', [sd, ed, sed, dg], 'phase_illuminated/' + ('flat' if dg < 1e-12 else 'proper'))
     # ---- node passages
     for _ in range(ctx.n(10000, 250000) // nshards + 1):
